@@ -210,6 +210,10 @@ def main():
     if seed:
         k = seed % len(selected)
         selected = selected[k:] + selected[:k]
+    if tier != "quick":
+        # within the time budget: first the harnesses built for this property, then the measured (quick) ones of
+        # other properties that also evaluate its oracle, then the rest (stable sort keeps the rotated order)
+        selected.sort(key=lambda h: (R.primary_of(h) != prop, R.HARNESSES[h]["tier"] != "quick"))
 
     build_dir = os.path.join(BUILD_ROOT, "%s-%s" % (prop, tier))
     if os.path.exists(build_dir):
@@ -239,8 +243,20 @@ def check(prop, tier, seed, selected, build_dir, workdir, args, t_start):
     jobs = args.jobs or R.default_jobs(tier)
     log("[%s/%s] %d harnesses, %d parallel jobs (codegen %.0fs)" % (prop, tier, len(selected), jobs, t_codegen))
     results = {}
+    # quick tier: a check is stopped from outside after 900 s, so harness runs end QUICK_DEADLINE seconds
+    # after the start of the check (what is still running then is reported as not explored)
+    deadline = t_start + float(os.environ.get("MQV_DEADLINE", R.QUICK_DEADLINE if tier == "quick" else R.THOROUGH_DEADLINE))
+
+    def run_with_deadline(h):
+        cfg = dict(R.config_for(h, tier))
+        left = deadline - time.time()
+        if left < 20:
+            return dict(name=h, status="timeout", error="not started: the check's time budget was used up", wall_s=0.0)
+        cfg["timeout"] = int(min(cfg["timeout"], left))
+        return run_one(h, metas[h], cfg, workdir, tier)
+
     with cf.ThreadPoolExecutor(max_workers=jobs) as ex:
-        futs = {ex.submit(run_one, h, metas[h], R.config_for(h, tier), workdir, tier): h for h in selected}
+        futs = {ex.submit(run_with_deadline, h): h for h in selected}
         for fu in cf.as_completed(futs):
             h = futs[fu]
             try:
@@ -256,7 +272,8 @@ def check(prop, tier, seed, selected, build_dir, workdir, args, t_start):
                 len(c.get("cover_sat", [])), len(c.get("cover_sat", [])) + len(c.get("cover_unsat", []))))
 
     known = load_known()
-    inconclusive = []
+    inconclusive = []      # machinery problems: exit 2
+    unexplored = []        # resource limits: reported, not a verdict either way
     violations = []
     known_hits = []
     side = []
@@ -267,6 +284,9 @@ def check(prop, tier, seed, selected, build_dir, workdir, args, t_start):
         r = results[h]
         cfg = R.config_for(h, tier)
         primary = R.primary_of(h)
+        if r["status"] in ("timeout", "memout"):
+            unexplored.append("%s: %s after %.0fs %s" % (h, r["status"], r.get("wall_s", 0), r.get("error", "")))
+            continue
         if r["status"] != "done":
             inconclusive.append("%s: %s %s" % (h, r["status"], r.get("error", "") or r.get("messages", "")))
             continue
@@ -379,7 +399,7 @@ def check(prop, tier, seed, selected, build_dir, workdir, args, t_start):
                 nontrivial += 1
 
     wall = time.time() - t_start
-    write_evidence(prop, tier, seed, selected, results, violations, known_hits, inconclusive, side, nontrivial, wall, e2_results, e2_info)
+    write_evidence(prop, tier, seed, selected, results, violations, known_hits, inconclusive, side, nontrivial, wall, e2_results, e2_info, unexplored)
 
     for (kf, item) in known_hits:
         log("KNOWN-FINDING: property=%s %s [harness %s: %s]" % (kf["prop"], kf["what"], item["harness"], item["desc"]))
@@ -390,15 +410,20 @@ def check(prop, tier, seed, selected, build_dir, workdir, args, t_start):
             log("VIOLATION property=%s replay=%s" % (v["prop"], v["replay"]))
             log("  harness=%s assertion=%r at %s" % (v["harness"], v["desc"], v["where"]))
         return 1
+    for u in unexplored:
+        log("NOT-EXPLORED: " + str(u)[:400])
     if inconclusive:
         for i in inconclusive:
             log("INCONCLUSIVE: " + str(i)[:600])
         return 2
-    log("[%s/%s] held on everything explored: %d harnesses, %.0fs" % (prop, tier, len(selected), wall))
+    if nontrivial == 0 and not known_hits:
+        log("INCONCLUSIVE: nothing was decided (every harness ran into its time or memory limit)")
+        return 2
+    log("[%s/%s] held on everything explored: %d of %d harnesses decided, %.0fs" % (prop, tier, len(selected) - len(unexplored), len(selected), wall))
     return 0
 
 
-def write_evidence(prop, tier, seed, selected, results, violations, known_hits, inconclusive, side, nontrivial, wall, e2_results=None, e2_info=None):
+def write_evidence(prop, tier, seed, selected, results, violations, known_hits, inconclusive, side, nontrivial, wall, e2_results=None, e2_info=None, unexplored=()):
     os.makedirs(EVIDENCE_DIR, exist_ok=True)
     evaluations = 0
     steps = 0
@@ -457,6 +482,7 @@ def write_evidence(prop, tier, seed, selected, results, violations, known_hits, 
             functions_with_bounded_loops=sorted(functions),
             ssa_steps=steps, clauses=clauses, symex_s=round(symex_s, 1), solver_s=round(solver_s, 1),
             inconclusive=inconclusive[:20],
+            not_explored=list(unexplored)[:40],
             e2=dict(lemmas=len(e2_results), translator_validation_inputs=e2_info.get("validated", 0),
                     translator_mismatches=len(e2_info.get("mismatches", [])), functions=e2_info.get("functions", [])),
             side_findings=[dict(harness=s["harness"], desc=s["desc"], where=s["where"]) for s in side],
